@@ -8,6 +8,7 @@ CONSTANTS
   AllValues = FALSE
   Rots = {0}
   PatSet = {"alt"}
+  Boundaries = {1}
   NearFields = 5
   EFN = {3}
   EFMaxThreads = 3
